@@ -217,18 +217,18 @@ func c33Reentry(c *Ctx, pp *prProg) {
 		return
 	}
 	for _, golang := range []bool{false, true} {
-		vars := map[*types.Var]tsVal{}
+		vars := map[*types.Var]reVal{}
 		for k, v := range init {
 			vars[k] = v
 		}
-		vars[e.golang] = tsBool(golang)
+		vars[e.golang] = reBool(golang)
 		e.phase = fmt.Sprintf("first handshake (HelloGolang=%v)", golang)
 		exits := e.run(first, vars, false, nil)
 		phase2 := fmt.Sprintf("renegotiation (HelloGolang=%v)", golang)
 		states := 0
 		seen := map[string]bool{}
 		for _, ex := range exits {
-			if ex.ret.k == tsNonNil || ex.taint {
+			if ex.ret.k == reNonNil || ex.taint {
 				continue // the first handshake definitely failed, or the state was guessed
 			}
 			k := e.varsKey(ex.vars, false)
